@@ -49,6 +49,20 @@ func (b *builder) gap(layout int) {
 	case 3:
 		b.add("")
 		b.add("/* block comment */")
+	case 4: // block comment opened on a line of its own
+		b.add("/*")
+		b.add("  text of the comment")
+		b.add("*/")
+	case 5: // block comment spanning lines, text on its first and last line, code behind the terminator
+		b.add("/* first")
+		b.add("   last */ id(0)")
+	case 6: // raw string literal spanning lines
+		b.add("id(`raw")
+		b.add("string`)")
+	case 7: // empty block comment lines and a comment holding what looks like a terminator of a string
+		b.add("/*")
+		b.add("")
+		b.add("` \" ' */ id(2) // */")
 	}
 }
 
@@ -72,6 +86,11 @@ var failures = []struct {
 	{"builtin-folded-argument", "q := int([1 + 2, !true])", ""},
 	{"operator-negative-literal-operand", "q := -1 / zero", "zero := 0"},
 	{"operator-folded-unary-operand", "q := !true % zero + ^5", "zero := 0"},
+	// unary operators fail too; their operand is a plain variable (nothing else on the line has a position of its own)
+	{"unary-minus-variable", "q := -str", "str := \"s\""},
+	{"unary-xor-variable", "q := ^str", "str := \"s\""},
+	{"unary-plus-free-variable", "q := +id", ""},
+	{"unary-minus-as-statement", "-id", ""},
 }
 
 func callStmt(form int, callee string) string {
@@ -96,6 +115,8 @@ func callStmt(form int, callee string) string {
 }
 
 const nForms = 7
+
+const nLayouts = 8
 
 type pos struct {
 	file string
@@ -270,7 +291,7 @@ func run16(c *fw.Ctx) {
 	if c.Thorough() {
 		maxD = 6
 	}
-	c.Family("uniform-forms", fmt.Sprintf("d <= %d x %d failures x 7 forms x 4 layouts x 3 positions x 4 styles", maxD, len(failures)))
+	c.Family("uniform-forms", fmt.Sprintf("d <= %d x %d failures x 7 forms x 8 layouts (blank, line and block comments incl. multi-line ones, raw strings over lines) x 3 positions x 4 styles", maxD, len(failures)))
 	for d := 0; d <= maxD; d++ {
 		for fi := range failures {
 			for form := 0; form < nForms; form++ {
@@ -278,7 +299,7 @@ func run16(c *fw.Ctx) {
 				for i := range forms {
 					forms[i] = form
 				}
-				for layout := 0; layout < 4; layout++ {
+				for layout := 0; layout < nLayouts; layout++ {
 					for position := 0; position < 3; position++ {
 						for style := 0; style < 4; style++ {
 							if !c.Next() {
